@@ -234,8 +234,9 @@ package wal
 //@          && (k != smmin(s.segments) ==> smget(s.segments, k).MinIndex == k))
 //@   && (forall k uint64 :: {smhas(s.segments, k)} smhas(s.segments, k) && hasnext(s.segments, k) ==>
 //@          !unsealedSeg(smget(s.segments, k)) && smget(s.segments, k).MinIndex <= smget(s.segments, k).MaxIndex
-//@          && smnext(s.segments, k) == smget(s.segments, k).MaxIndex + 1
-//@          && smget(s.segments, smnext(s.segments, k)).ID > smget(s.segments, k).ID)
+//@          && smnext(s.segments, k) == smget(s.segments, k).MaxIndex + 1)
+//@   && (forall k1, k2 uint64 :: {smget(s.segments, k1).ID} {smget(s.segments, k2).ID} smhas(s.segments, k1) && smhas(s.segments, k2) && k1 < k2
+//@          ==> smget(s.segments, k1).ID < smget(s.segments, k2).ID)
 
 //@ -- WFS(s): a well-formed published state: SInv, a non-empty map whose greatest
 //@ -- segment is the unsealed tail served by s.tail, and a reader for every segment
@@ -429,6 +430,7 @@ package wal
 //@   ensures[C04.new-tail-unsealed] unsealedSeg(smget(newState.segments, smmax(newState.segments))) && smget(newState.segments, smmax(newState.segments)).MinIndex == smmax(newState.segments)
 //@      && smget(newState.segments, smmax(newState.segments)).MaxIndex == 0
 //@   ensures[C03.pinv-create] SInv(newState)
+//@   ensures[C04.only-tail-added] forall k uint64 :: {smhas(newState.segments, k)} smhas(newState.segments, k) ==> old(smhas(newState.segments, k)) || k == smmax(newState.segments)
 //@   ensures[C03.create-pending] old(forall k uint64 :: {smhas(newState.segments, k)} smhas(newState.segments, k) ==> smget(newState.segments, k).r != nil) ==> PendingTail(newState)
 //@   resultcontract result0 wal.postCommit(newState, smget(newState.segments, smmax(newState.segments)))
 //@   ensures[C04.others-kept] forall k uint64 :: {smhas(newState.segments, k)} old(smhas(newState.segments, k)) ==> smhas(newState.segments, k)
@@ -481,9 +483,19 @@ package wal
 //@   loop 1 invariant itvalid(it) && !old(EmptyLog(newState)) ==> newMin >= itcur(it)
 //@   loop 1 invariant forall k uint64 :: {smhas(old(newState.segments), k)} smhas(old(newState.segments), k) && (!itvalid(it) || k < itcur(it))
 //@        ==> ite(unsealedSeg(smget(old(newState.segments), k)), old(LastOf(newState)), smget(old(newState.segments), k).MaxIndex) < newMin
+//@   loop 1 invariant forall k1, k2 uint64 :: {smget(newState.segments, k1).ID} {smget(newState.segments, k2).ID} smhas(newState.segments, k1) && smhas(newState.segments, k2) && k1 < k2
+//@        ==> smget(newState.segments, k1).ID < smget(newState.segments, k2).ID
+//@   loop 1 invariant[C13.head-delete-covers] forall k uint64 :: {smhas(old(newState.segments), k)} smhas(old(newState.segments), k) && (!itvalid(it) || k < itcur(it))
+//@        ==> mhas(toDelete, smget(old(newState.segments), k).ID) && mget(toDelete, smget(old(newState.segments), k).ID) == k
+//@   loop 1 invariant[C13.head-delete-bounded] forall id uint64 :: {mhas(toDelete, id)} mhas(toDelete, id) ==> id < newState.nextSegmentID && (itvalid(it) ==> id < smget(old(newState.segments), itcur(it)).ID)
 //@   loop 1 invariant[C20.head-count-start] itvalid(it) && itcur(it) == old(smmin(newState.segments)) ==> nTruncated == 0
 //@   loop 1 invariant[C20.head-count-skipped] itvalid(it) && itcur(it) != old(smmin(newState.segments)) ==> nTruncated == itcur(it) - old(FirstSegMin(newState))
 //@   loop 1 invariant[C20.head-count-all] !itvalid(it) ==> nTruncated == ite(old(EmptyLog(newState)), 0, old(LastOf(newState)) - old(FirstSegMin(newState)) + 1)
+//@   ensures[C13.head-deletes-dropped] result2 == nil && result1 == nil ==> (forall k uint64 :: {smhas(old(newState.segments), k)} smhas(old(newState.segments), k) && k < smmin(newState.segments)
+//@        ==> mhas(toDelete, old(smget(newState.segments, k).ID)) && mget(toDelete, old(smget(newState.segments, k).ID)) == k)
+//@   ensures[C13.head-deletes-all] result2 == nil && result1 != nil ==> (forall k uint64 :: {smhas(old(newState.segments), k)} smhas(old(newState.segments), k)
+//@        ==> mhas(toDelete, old(smget(newState.segments, k).ID)) && mget(toDelete, old(smget(newState.segments, k).ID)) == k)
+//@   ensures[C13.head-spares-live] result2 == nil ==> (forall k uint64 :: {smhas(newState.segments, k)} smhas(newState.segments, k) ==> !mhas(toDelete, smget(newState.segments, k).ID))
 //@   ensures[C20.head-count] result2 == nil ==> counter("head_truncations") == old(counter("head_truncations"))
 //@        + ite(old(EmptyLog(newState)), 0, ite(newMin > old(LastOf(newState)), old(LastOf(newState)) - old(FirstSegMin(newState)) + 1, newMin - old(FirstSegMin(newState))))
 //@   ensures[C04.head-applied] result2 == nil && old(LastOf(newState)) >= newMin ==> smnonempty(newState.segments) && smget(newState.segments, smmin(newState.segments)).MinIndex == newMin
@@ -513,8 +525,16 @@ package wal
 //@        && smget(newState.segments, smmin(newState.segments)).MinIndex == old(smget(newState.segments, smmin(newState.segments)).MinIndex)
 //@   loop 1 invariant itvalid(it) && hasprev(old(newState.segments), itcur(it))
 //@        ==> smget(old(newState.segments), smprev(old(newState.segments), itcur(it))).MaxIndex + 1 == itcur(it) && smget(old(newState.segments), itcur(it)).MinIndex == itcur(it)
+//@   loop 1 invariant forall k1, k2 uint64 :: {smget(newState.segments, k1).ID} {smget(newState.segments, k2).ID} smhas(newState.segments, k1) && smhas(newState.segments, k2) && k1 < k2
+//@        ==> smget(newState.segments, k1).ID < smget(newState.segments, k2).ID
+//@   loop 1 invariant[C13.tail-delete-covers] forall k uint64 :: {smhas(old(newState.segments), k)} smhas(old(newState.segments), k) && (!itvalid(it) || k > itcur(it))
+//@        ==> mhas(toDelete, smget(old(newState.segments), k).ID) && mget(toDelete, smget(old(newState.segments), k).ID) == k
+//@   loop 1 invariant[C13.tail-delete-bounded] forall id uint64 :: {mhas(toDelete, id)} mhas(toDelete, id) ==> id < newState.nextSegmentID && (itvalid(it) ==> id > smget(old(newState.segments), itcur(it)).ID)
 //@   loop 1 invariant[C20.tail-count-start] itvalid(it) && itcur(it) == old(smmax(newState.segments)) ==> nTruncated == 0
 //@   loop 1 invariant[C20.tail-count-dropped] itvalid(it) && itcur(it) != old(smmax(newState.segments)) ==> nTruncated == old(LastOf(newState)) - smget(old(newState.segments), itcur(it)).MaxIndex
+//@   ensures[C13.tail-deletes-dropped] result2 == nil ==> (forall k uint64 :: {smhas(old(newState.segments), k)} smhas(old(newState.segments), k) && k > newMax
+//@        ==> mhas(toDelete, old(smget(newState.segments, k).ID)) && mget(toDelete, old(smget(newState.segments, k).ID)) == k)
+//@   ensures[C13.tail-spares-live] result2 == nil ==> (forall k uint64 :: {smhas(newState.segments, k)} smhas(newState.segments, k) ==> !mhas(toDelete, smget(newState.segments, k).ID))
 //@   ensures[C20.tail-count] result2 == nil ==> counter("tail_truncations") == old(counter("tail_truncations")) + (old(LastOf(newState)) - newMax)
 //@   ensures[C13.tail-fresh-id] result2 == nil ==> newState.nextSegmentID == old(newState.nextSegmentID) + 1 && smget(newState.segments, smmax(newState.segments)).ID == old(newState.nextSegmentID)
 
@@ -579,9 +599,16 @@ package wal
 //@   loop 2 invariant SInv(newState)
 //@   loop 2 invariant forall k uint64 :: {smhas(newState.segments, k)} smhas(newState.segments, k) ==> smget(newState.segments, k).r != nil && !unsealedSeg(smget(newState.segments, k))
 //@   loop 2 invariant rangeindex == -1 ==> !smnonempty(newState.segments)
+//@   loop 2 invariant rangeindex >= 0 ==> (forall k uint64 :: {smhas(newState.segments, k)} smhas(newState.segments, k) ==> smget(newState.segments, k).ID <= persisted.Segments[rangeindex].ID)
 //@   loop 2 invariant rangeindex >= 0 ==> smnonempty(newState.segments) && smmax(newState.segments) == persisted.Segments[rangeindex].BaseIndex && smmin(newState.segments) == persisted.Segments[0].BaseIndex
 //@        && SameInfo(smget(newState.segments, smmax(newState.segments)), persisted.Segments[rangeindex])
 //@        && smget(newState.segments, smmin(newState.segments)).MinIndex == persisted.Segments[0].MinIndex
+//@   loop 2 invariant[C13.sweep-only-listed] forall id uint64 :: {mhas(toDelete, id)} mhas(toDelete, id) ==> inset(w.sf.listed, id)
+//@   loop 2 invariant[C13.sweep-spares-live] forall j int :: 0 <= j && j <= rangeindex ==> !mhas(toDelete, persisted.Segments[j].ID)
+//@   loop 2 invariant[C13.sweep-complete] forall id uint64 :: {inset(w.sf.listed, id)} inset(w.sf.listed, id) ==> mhas(toDelete, id) || (exists j int :: 0 <= j && j <= rangeindex && persisted.Segments[j].ID == id)
+//@   ensures[C13.open-sweep-spares-live] result1 == nil ==> (forall j int :: 0 <= j && j < len(persisted.Segments) ==> !mhas(toDelete, persisted.Segments[j].ID))
+//@   ensures[C13.open-sweep-complete] result1 == nil ==> (forall id uint64 :: {inset(w.sf.listed, id)} inset(w.sf.listed, id) ==> mhas(toDelete, id) || (exists j int :: 0 <= j && j < len(persisted.Segments) && persisted.Segments[j].ID == id))
+//@   ensures[C13.open-sweep-requested] result1 == nil ==> (forall id uint64 :: {mhas(toDelete, id)} mhas(toDelete, id) ==> inset(w.sf.deleted, id))
 //@   ensures[C03.open-wf] result1 == nil ==> result0 != nil && av(result0.s) != nil && WFS(av(result0.s))
 //@   ensures[C03.open-config] result1 == nil ==> result0.codec != nil && result0.sf != nil && result0.metaDB != nil && result0.metrics != nil && result0.closed == 0
 //@   ensures[C03.appendable] result1 == nil ==> !av(result0.s).tail.sealed
@@ -624,3 +651,25 @@ package wal
 //@   ensures[C05.getlog-below-first] old(w.closed) == 0 && FirstOf(av(w.s)) != 0 && index < FirstOf(av(w.s)) ==> result == types.ErrNotFound
 //@   ensures[C20.reads-closed] old(w.closed) != 0 ==> counter("log_entries_read") == old(counter("log_entries_read")) && counter("log_entry_bytes_read") == old(counter("log_entry_bytes_read"))
 //@   ensures[C20.reads] old(w.closed) == 0 ==> counter("log_entries_read") == old(counter("log_entries_read")) + 1
+
+//@ -- deleting a set of segment files: a deletion is requested for every entry of
+//@ -- the map and for nothing else (failures are logged, C13 is about requests)
+//@ func (*WAL).deleteSegments
+//@   props C13
+//@   requires w.sf != nil && w.log != nil
+//@   assigns w.sf.deleted
+//@   loop 1 invariant forall id uint64 :: {inset(w.sf.deleted, id)} inset(w.sf.deleted, id) <==> (old(inset(w.sf.deleted, id)) || (mhas(toDelete, id) && rangevisited(id)))
+//@   ensures[C13.delete-all-listed] forall id uint64 :: {inset(w.sf.deleted, id)} inset(w.sf.deleted, id) <==> (old(inset(w.sf.deleted, id)) || mhas(toDelete, id))
+
+//@ -- the finalizers returned by the truncation transactions close the readers
+//@ -- and request deletion of exactly the collected segments
+//@ func (*WAL).truncateHeadLocked$1$1
+//@   props C13
+//@   requires w != nil && w.sf != nil && w.log != nil
+//@   assigns *
+//@   ensures[C13.head-finalizer-deletes] forall id uint64 :: {inset(w.sf.deleted, id)} inset(w.sf.deleted, id) <==> (old(inset(w.sf.deleted, id)) || mhas(toDelete, id))
+//@ func (*WAL).truncateTailLocked$1$1
+//@   props C13
+//@   requires w != nil && w.sf != nil && w.log != nil
+//@   assigns *
+//@   ensures[C13.tail-finalizer-deletes] forall id uint64 :: {inset(w.sf.deleted, id)} inset(w.sf.deleted, id) <==> (old(inset(w.sf.deleted, id)) || mhas(toDelete, id))
